@@ -212,6 +212,18 @@ def carrier(ctx):
                 b = norm_text(st.targets[0].value)
                 if b in want:
                     rows[b] = (st.targets[0].slice, st)
+        if mname == '__init__':
+            # `self.lla = np.full((size, 3), <state part>)`: every row, row 0 included, holds it
+            for st in m.node.body:
+                if isinstance(st, ast.Assign) and len(st.targets) == 1 and \
+                        norm_text(st.targets[0]) in want and \
+                        norm_text(st.targets[0]) not in rows and \
+                        isinstance(st.value, ast.Call) and \
+                        m.module.resolve(st.value.func, m.local_names()) == 'numpy.full' and \
+                        len(st.value.args) >= 2:
+                    syn = ast.Assign(targets=st.targets, value=st.value.args[1])
+                    ast.copy_location(syn, st)
+                    rows[norm_text(st.targets[0])] = (ast.Constant(0), syn)
         for b in bufs:
             ctx.ob('CARRIER', b in rows, None, '%s writes %s' % (mname, b), f=m,
                    key='%s-writes-%s' % (mname, b),
